@@ -155,7 +155,12 @@ func drawC11Spec(t *rapid.T, label string, interop bool) c11Spec {
 		return s
 	}
 	s.KEM = uint16(rapid.SampledFrom([]int{0x0020, 0x0010, 0x0011, 0x0021, 0xffff, 0}).Draw(t, label+"_kem"))
-	s.Pub = hello.GenBytes(t, label+"_pub", rapid.IntRange(0, 200).Draw(t, label+"_publen"))
+	publen := rapid.IntRange(0, 200).Draw(t, label+"_publen")
+	if label == "s0" && rapid.IntRange(0, 7).Draw(t, label+"_bigpub") == 0 {
+		// the public key has a 16-bit length: post-quantum KEM keys are kilobytes long
+		publen = rapid.SampledFrom([]int{255, 256, 1216, 4095, 4096, 4097, 9616, 20000}).Draw(t, label+"_bigpublen")
+	}
+	s.Pub = hello.GenBytes(t, label+"_pub", publen)
 	ns := rapid.IntRange(0, 8).Draw(t, label+"_ns")
 	for i := 0; i < ns; i++ {
 		s.Suites = append(s.Suites, hello.Suite{KDF: uint16(rapid.IntRange(0, 4).Draw(t, label+"_kdf")), AEAD: uint16(rapid.IntRange(0, 0xffff).Draw(t, label+"_aead"))})
@@ -179,7 +184,7 @@ func drawC11Spec(t *rapid.T, label string, interop bool) c11Spec {
 
 func TestC11(t *testing.T) {
 	rec := ev.Get("C11")
-	rec.Rule("ConfigSpecs: id 0..255, KEM ids, public keys of 0..200 bytes (valid X25519 points for interop cases), 0..8 cipher suites incl. unknown ids, public names of 1..255 bytes (and invalid lengths 0, 256..300), lists of 0..6 configs, and lists sized around the 65535-byte limit of the length prefix (largest that fits / one more / many more). Oracles: harness decoder written from draft section 4 reads Bytes() and agrees field by field; Spec()/ParseConfigList return the generated specs in order; harness-encoded configs parse to the same fields (both directions); crypto/tls client+server accept interop configs (outer SNI = public name, config id named, ECHAccepted on both sides); every strict prefix of a valid list is rejected; trailing bytes beyond declared lengths do not change the result; length fields +-1 never panic; one length field of a valid config changed by -4..+200: no panic and the result (acceptance and fields) is independent of every byte beyond the config's declared length, stand-alone and inside a list. distinct = encoding hash; non-trivial = name length not in {11,18} or id != 1 or non-default suites")
+	rec.Rule("ConfigSpecs: id 0..255, KEM ids, public keys of 0..200 bytes and of 255..20000 bytes (valid X25519 points for interop cases), 0..8 cipher suites incl. unknown ids, public names of 1..255 bytes (and invalid lengths 0, 256..300), lists of 0..6 configs, and lists sized around the 65535-byte limit of the length prefix (largest that fits / one more / many more). Oracles: harness decoder written from draft section 4 reads Bytes() and agrees field by field; Spec()/ParseConfigList return the generated specs in order; harness-encoded configs parse to the same fields (both directions); crypto/tls client+server accept interop configs (outer SNI = public name, config id named, ECHAccepted on both sides); every strict prefix of a valid list is rejected; trailing bytes beyond declared lengths do not change the result; length fields +-1 never panic; one length field of a valid config changed by -4..+200: no panic and the result (acceptance and fields) is independent of every byte beyond the config's declared length, stand-alone and inside a list. distinct = encoding hash; non-trivial = name length not in {11,18} or id != 1 or non-default suites")
 	rec.Mandatory("suites_cut_mid_suite", "name_len1", "name_len239", "name_len240", "name_len255", "list0", "list_ge3", "interop", "single_suite_aead1", "single_suite_aead2", "single_suite_aead3", "invalid_name_len", "prefix_rejected", "newconfig", "lenfield:contents_length", "lenfield:public_key_length", "lenfield:cipher_suites_length", "lenfield:public_name_length", "lenfield:extensions_length", "list_around_64k", "unknown_version_entry")
 	rapid.Check(t, func(t *rapid.T) {
 		interop := rapid.IntRange(0, 9).Draw(t, "interop") == 0
